@@ -203,7 +203,10 @@ func runC17(c *Ctx) {
 	item := 0
 	// ---- part 1: (stored shape, current shape) pairs ----------------------------------------
 	for _, stored := range shapeVariants {
-		for _, nobj := range []int{0, 2} {
+		for _, nobjv := range []int{0, 2, 102} {
+			// 102 = two objects plus an orphan object file the index does not know (an index that
+			// is out of sync must not mask the structure change); only used for incompatible pairs
+			nobj, orphan := nobjv%100, nobjv >= 100
 			// database written with the stored shape
 			var base *vfs.FS
 			var uuids []string
@@ -223,10 +226,23 @@ func runC17(c *Ctx) {
 					uuids = append(uuids, o.UUID())
 				}
 				db.Close()
+				if orphan && len(uuids) > 0 {
+					dir := ""
+					for _, p := range base.Paths(dbRoot) {
+						if strings.HasSuffix(p, "/schema.json") {
+							dir = strings.TrimSuffix(p, "/schema.json")
+						}
+					}
+					data, _ := base.Get(dir + "/" + uuids[0] + ".json")
+					base.Put(dir+"/eeeeeeee-0000-4000-8000-00000000000e.json", data)
+				}
 			})
 			for _, cur := range shapeVariants {
 				structSame := sameMap(stored.Fields, cur.Fields)
 				consSame := sameMap(stored.Cons, cur.Cons)
+				if orphan && structSame {
+					continue
+				}
 				for oi, op := range ops {
 					for _, later := range []bool{false, true} {
 						item++
@@ -329,7 +345,7 @@ func runC17(c *Ctx) {
 						c.Count("evaluations", 1)
 						c.Count("transitions", 1)
 						c.Count("paths_replayed", 1)
-						key := fmt.Sprintf("%s>%s|%d|%d|%v", stored.Name, cur.Name, nobj, oi, later)
+						key := fmt.Sprintf("%s>%s|%d|%d|%v", stored.Name, cur.Name, nobjv, oi, later)
 						c.Distinct("states", key)
 						if stored.Name != cur.Name {
 							c.Distinct("distinct_nontrivial", key)
